@@ -643,3 +643,174 @@ Proof.
   - apply route_room. now left.
   - apply route_room. now right.
 Qed.
+
+(* ------------------------------------------------------------------ the op, in both kinds *)
+Definition op_of (ctl : bool) (c : N) (to : recipient) (tag : N) : op := if ctl then OCtl c to tag else OMsg c to tag.
+Definition kind_of (ctl : bool) : N := if ctl then 1 else 0.
+Definition is_msg_op (o : op) : bool := match o with OMsg _ _ _ | OCtl _ _ _ => true | _ => false end.
+
+(* the reference's targets: nothing when a control message is not allowed *)
+Definition ref_targets (pd : digest) (ctl : bool) (s : sd) (to : recipient) : list (N * option rcpt) :=
+  if N.eqb (kind_of ctl) 1 && negb (control_allowed s) then [] else route_spec pd s to.
+
+Lemma step_C05_eq ctl pd c to tag ob :
+  step_C05 pd (op_of ctl c to tag) ob =
+  let copies := filter (fun e => tagged (kind_of ctl) tag (snd e)) (all_msgs ob) in
+  match sd_of_conn pd c with
+  | None => match copies with [] => true | _ => false end
+  | Some s =>
+      mset_eqb (fun a b => N.eqb (fst a) (fst b) && smsg_eqb (snd a) (snd b)) copies
+               (ref_copies pd (kind_of ctl) s to tag (ref_targets pd ctl s to))
+      && forallb (fun e => negb (N.eqb (fst e) c) ||
+                           match snd e with SMsg _ _ _ _ (Some (RcptVirtual _)) _ => true | _ => false end) copies
+  end.
+Proof. destruct ctl; reflexivity. Qed.
+
+Lemma step_msg ctl h c to tag :
+  step h (op_of ctl c to tag) =
+  with_session h c (fun cn sid s => if negb ctl || allowed_control s then do_message h sid s (kind_of ctl) to tag true else (h, [])).
+Proof. destruct ctl; reflexivity. Qed.
+
+(* the session attached to connection c *)
+Definition conn_sess (h : hub) (c sid : N) (s : session) : Prop :=
+  exists cn, aget (h_conns h) c = Some cn /\ c_sess cn = Some sid /\ get_sess h sid = Some s.
+
+Lemma conn_sess_conn h c sid s : WF h -> conn_sess h c sid s -> s_conn s = Some c.
+Proof.
+  intros W (cn & Hc & Hl & Hs). destruct (wf_conns _ _ h W c cn sid Hc Hl) as (s' & Hs' & Hc'). congruence.
+Qed.
+Lemma sd_of_conn_sess h c sid s : WF h -> RI h -> conn_sess h c sid s -> sd_of_conn (digest_of h) c = Some (sd_of h (sid, s)).
+Proof. intros W I (cn & Hc & Hl & Hs). rewrite sd_of_conn_digest by assumption. now rewrite Hc, Hl, Hs. Qed.
+Lemma sd_of_conn_none h c : WF h -> RI h -> (forall sid s, ~ conn_sess h c sid s) -> sd_of_conn (digest_of h) c = None.
+Proof.
+  intros W I Hn. rewrite sd_of_conn_digest by assumption. destruct (aget (h_conns h) c) as [cn|] eqn:Hc; [|reflexivity].
+  destruct (c_sess cn) as [sid|] eqn:Hl; [|reflexivity]. destruct (wf_conns _ _ h W c cn sid Hc Hl) as (s & Hs & _).
+  exfalso. apply (Hn sid s). exists cn. auto.
+Qed.
+
+(* ------------------------------------------------------------------ one message op, quiescent *)
+Lemma qstep_msg ctl h c to tag sid s :
+  WF h -> RI h -> h_bus h = [] -> conn_sess h c sid s ->
+  exists h2 outs, qstep h (op_of ctl c to tag) = (h2, outs) /\
+    routed h sid s (kind_of ctl) to tag (ref_targets (digest_of h) ctl (sd_of h (sid, s)) to) h [] h2 outs.
+Proof.
+  intros W I Hb Hcs. pose proof (conn_sess_conn h c sid s W Hcs) as Hc. destruct Hcs as (cn & Hcn & Hl & Hs).
+  unfold qstep. rewrite step_msg. unfold with_session. rewrite Hcn, Hl, Hs.
+  unfold ref_targets. rewrite control_allowed_sd.
+  destruct ctl; cbn [negb orb kind_of].
+  - change (N.eqb 1 1) with true. cbn [andb]. destruct (allowed_control s); cbn [negb].
+    + destruct (route_core h c sid s 1 to tag W I Hb Hs Hc) as (h1 & o1 & h2 & o2 & A & D & R).
+      rewrite A, D. exists h2, (o1 ++ o2). split; [reflexivity|]. exact R.
+    + rewrite (drain_nil 500 h Hb). exists h, []. split; [reflexivity|]. now apply routed_nothing.
+  - change (N.eqb 0 1) with false. cbn [andb].
+    destruct (route_core h c sid s 0 to tag W I Hb Hs Hc) as (h1 & o1 & h2 & o2 & A & D & R).
+    rewrite A, D. exists h2, (o1 ++ o2). split; [reflexivity|]. exact R.
+Qed.
+
+Lemma qstep_msg_nosess ctl h c to tag :
+  h_bus h = [] -> (forall sid s, ~ conn_sess h c sid s) -> WF h ->
+  qstep h (op_of ctl c to tag) = (h, []) \/ qstep h (op_of ctl c to tag) = (h, [ToConn c (SError E_hello_expected)]).
+Proof.
+  intros Hb Hn W. unfold qstep. rewrite step_msg. unfold with_session.
+  destruct (aget (h_conns h) c) as [cn|] eqn:Hc; [|left; now rewrite (drain_nil 500 h Hb)].
+  destruct (c_sess cn) as [sid|] eqn:Hl; [|right; now rewrite (drain_nil 500 h Hb)].
+  destruct (wf_conns _ _ h W c cn sid Hc Hl) as (s & Hs & _). exfalso. apply (Hn sid s). exists cn. auto.
+Qed.
+
+(* ------------------------------------------------------------------ 1. the outputs are the reference's copies, in order *)
+Theorem msg_outputs ctl h c to tag sid s :
+  WF h -> RI h -> h_bus h = [] -> conn_sess h c sid s ->
+  snd (qstep h (op_of ctl c to tag)) =
+  outs_of (ref_copies (digest_of h) (kind_of ctl) (sd_of h (sid, s)) to tag
+                      (ref_targets (digest_of h) ctl (sd_of h (sid, s)) to)).
+Proof.
+  intros W I Hb Hcs. destruct (qstep_msg ctl h c to tag sid s W I Hb Hcs) as (h2 & outs & Hq & R).
+  rewrite Hq. cbn [snd]. destruct R as (Ho & _). cbn [app] in Ho. rewrite Ho. symmetry. apply ref_copies_model.
+  pose proof (conn_sess_conn h c sid s W Hcs) as Hc. destruct Hcs as (cn & Hcn & Hl & Hs).
+  exact (ri_novirt _ _ I sid s c Hs Hc).
+Qed.
+
+Theorem msg_outputs_nosess ctl h c to tag :
+  WF h -> h_bus h = [] -> (forall sid s, ~ conn_sess h c sid s) ->
+  snd (qstep h (op_of ctl c to tag)) = [] \/ snd (qstep h (op_of ctl c to tag)) = [ToConn c (SError E_hello_expected)].
+Proof. intros W Hb Hn. destruct (qstep_msg_nosess ctl h c to tag Hb Hn W) as [-> | ->]; auto. Qed.
+
+(* ------------------------------------------------------------------ who the reference addresses *)
+Lemma opt_pair_eqb_true a b : opt_pair_eqb a b = true -> a = b.
+Proof.
+  destruct a as [x|], b as [y|]; cbn; try discriminate; try reflexivity.
+  destruct (pair_eqb_spec x y); [congruence|discriminate].
+Qed.
+
+(* every target is a live, non-virtual session of the sender's backend, other than the sender - except
+   the internal client of an addressed virtual session, which gets the recipient rewritten (and may be
+   the sender itself: a client addressing one of its own virtual sessions) *)
+Lemma targets_shape h c sid s to r rc :
+  WF h -> RI h -> get_sess h sid = Some s -> s_conn s = Some c ->
+  In (r, rc) (route_spec (digest_of h) (sd_of h (sid, s)) to) ->
+  (exists tr, get_sess h r = Some tr /\ s_backend tr = s_backend s /\ is_virtual (s_kind tr) = false) /\
+  ((rc = None /\ r <> sid) \/
+   (exists n t v, to = RSession (IdPub n) /\ get_sess h n = Some t /\ s_kind t = KVirtual r v /\ rc = Some (RcptVirtual v))).
+Proof.
+  intros W I Hs Hc Hin. pose proof (ri_novirt _ _ I sid s c Hs Hc) as Hv.
+  assert (Hfilt : forall (G : sd -> bool), In (r, rc) (map (fun x : sd => (d_sid x, None)) (filter G (g_sessions (digest_of h)))) ->
+            exists t, get_sess h r = Some t /\ G (sd_of h (r, t)) = true /\ rc = None).
+  { intros G Hi. apply in_map_iff in Hi as (x & Hx & Hi). apply filter_In in Hi as [Hi HG].
+    change (g_sessions (digest_of h)) with (map (sd_of h) (h_sessions h)) in Hi. apply in_map_iff in Hi as ([y t] & <- & Hi).
+    injection Hx as <- <-. exists t. split; [now apply get_in; [apply I|]|]. auto. }
+  destruct to as [i|u| |].
+  - destruct i as [n|n|k|n]; try destruct Hin. cbn [route_spec] in Hin. rewrite find_sd_digest in Hin.
+    destruct (get_sess h n) as [t|] eqn:Ht; [|destruct Hin]. cbn [option_map] in Hin.
+    change (d_backend (sd_of h (n, t))) with (s_backend t) in Hin. change (d_backend (sd_of h (sid, s))) with (s_backend s) in Hin.
+    change (d_sid (sd_of h (sid, s))) with sid in Hin. rewrite is_virtual_d_sd in Hin.
+    destruct (N.eqb_spec (s_backend t) (s_backend s)) as [Hbk|]; [|destruct Hin]. cbn [negb orb] in Hin.
+    destruct (N.eqb_spec n sid) as [|Hne]; [destruct Hin|].
+    destruct (s_kind t) as [|f d|p v] eqn:Hk; cbn [is_virtual] in Hin.
+    + destruct Hin as [E|[]]. injection E as <- <-. split; [exists t; rewrite Hk; auto|left; auto].
+    + destruct Hin as [E|[]]. injection E as <- <-. split; [exists t; rewrite Hk; auto|left; auto].
+    + rewrite (find_vt_digest h n t p v W I Ht Hk) in Hin. destruct Hin as [E|[]]. injection E as <- <-.
+      destruct (wf_parent _ _ h W n t p v Ht Hk) as [[]|(ps & Hps & Hint)]. split.
+      * exists ps. split; [exact Hps|]. split; [rewrite (ri_parent _ _ I n t p v ps Ht Hk Hps); exact Hbk|].
+        destruct (s_kind ps); try discriminate; reflexivity.
+      * right. exists n, t, v. auto.
+  - cbn [route_spec] in Hin. rewrite (d_user_sd h sid s Hv) in Hin.
+    destruct (N.eqb_spec u 0) as [|Hu0]; [destruct Hin|]. cbn [orb] in Hin.
+    destruct (N.eqb_spec u (sess_userid h sid s)) as [|Hu]; [destruct Hin|].
+    destruct (Hfilt _ Hin) as (t & Ht & HG & ->). rewrite is_virtual_d_sd in HG.
+    apply andb_prop in HG as [HG Hau]. apply andb_prop in HG as [Hvt Hbk]. apply negb_true_iff in Hvt.
+    change (d_backend (sd_of h (r, t))) with (s_backend t) in Hbk. change (d_backend (sd_of h (sid, s))) with (s_backend s) in Hbk.
+    apply N.eqb_eq in Hbk. rewrite (d_authuser_sd h r t Hvt) in Hau. apply N.eqb_eq in Hau.
+    split; [exists t; auto|]. left. split; [reflexivity|]. intros ->. rewrite Hs in Ht. injection Ht as <-.
+    apply Hu. unfold sess_userid. destruct (N.eqb_spec (s_user s) 0); [congruence|now symmetry].
+  - cbn [route_spec] in Hin. change (d_room (sd_of h (sid, s))) with (s_room s) in Hin.
+    destruct (s_room s) as [k|] eqn:Hk; [|destruct Hin].
+    destruct (Hfilt _ Hin) as (t & Ht & HG & ->). rewrite is_virtual_d_sd in HG.
+    apply andb_prop in HG as [HG _]. apply andb_prop in HG as [HG Hne]. apply andb_prop in HG as [Hvt Hrm].
+    apply negb_true_iff in Hvt. change (d_room (sd_of h (r, t))) with (s_room t) in Hrm. apply opt_pair_eqb_true in Hrm.
+    change (d_sid (sd_of h (r, t))) with r in Hne. change (d_sid (sd_of h (sid, s))) with sid in Hne.
+    split; [exists t; split; [exact Ht|split; [|exact Hvt]]|left; split; [reflexivity|]].
+    + rewrite <- (ri_room _ _ I r t k Ht Hrm). apply (ri_room _ _ I sid s k Hs Hk).
+    + intros ->. now rewrite N.eqb_refl in Hne.
+  - cbn [route_spec] in Hin. change (d_room (sd_of h (sid, s))) with (s_room s) in Hin.
+    destruct (s_room s) as [k|] eqn:Hk; [|destruct Hin].
+    destruct (Hfilt _ Hin) as (t & Ht & HG & ->). rewrite is_virtual_d_sd in HG.
+    apply andb_prop in HG as [HG _]. apply andb_prop in HG as [HG Hne]. apply andb_prop in HG as [Hvt Hrm].
+    apply negb_true_iff in Hvt. change (d_room (sd_of h (r, t))) with (s_room t) in Hrm. apply opt_pair_eqb_true in Hrm.
+    change (d_sid (sd_of h (r, t))) with r in Hne. change (d_sid (sd_of h (sid, s))) with sid in Hne.
+    split; [exists t; split; [exact Ht|split; [|exact Hvt]]|left; split; [reflexivity|]].
+    + rewrite <- (ri_room _ _ I r t k Ht Hrm). apply (ri_room _ _ I sid s k Hs Hk).
+    + intros ->. now rewrite N.eqb_refl in Hne.
+Qed.
+
+Lemma in_ref_targets pd ctl sd to e : In e (ref_targets pd ctl sd to) -> In e (route_spec pd sd to).
+Proof. unfold ref_targets. destruct (N.eqb (kind_of ctl) 1 && negb (control_allowed sd)); [intros []|auto]. Qed.
+
+(* an output of the op: the copy for one target *)
+Lemma in_outputs h kindn sid s to tag T c' m :
+  In (ToConn c' m) (flat_map (fun e => out_for h (the_msg h kindn sid s to (snd e) tag) (fst e)) T) ->
+  exists r rc t, In (r, rc) T /\ get_sess h r = Some t /\ s_conn t = Some c' /\ m = the_msg h kindn sid s to rc tag.
+Proof.
+  intros Hin. apply in_flat_map in Hin as ([r rc] & HT & Ho). cbn [fst snd] in Ho. unfold out_for in Ho.
+  destruct (get_sess h r) as [t|] eqn:Ht; [|destruct Ho]. destruct (s_conn t) as [c0|] eqn:Hc0; [|destruct Ho].
+  destruct Ho as [E|[]]. injection E as <- <-. exists r, rc, t. auto.
+Qed.
